@@ -170,14 +170,16 @@ static std::shared_ptr<MFile> schema_copy(const MFile &f) {
     return s;
 }
 static void req_counts(MFile &f, Op &op) {
-    op.exp_nreqs.clear(); op.exp_usage.clear();
-    for (auto &r : f.ranks) { long long n = 0, u = 0; for (auto &q : r.reqs) if (q.live) { n++; if (q.kind == K_BPUT) u += q.abuf_bytes; } op.exp_nreqs.push_back(n); op.exp_usage.push_back(r.abuf ? u : -1); }
+    op.exp_nreqs.clear(); op.exp_usage.clear(); op.exp_usage_tail.clear();
+    for (auto &r : f.ranks) { long long n = 0, u = 0; for (auto &q : r.reqs) if (q.live) { n++; if (q.kind == K_BPUT) u += q.abuf_bytes; } op.exp_nreqs.push_back(n); op.exp_usage.push_back(r.abuf ? u : -1); long long t = 0; for (auto &e : r.abuf_table) t += e.first; op.exp_usage_tail.push_back(r.abuf ? t : -1); }
 }
 static void do_enddef(MFile &f) {
     for (auto &v : f.vars) {
         if (!v.fresh) continue;
-        if (v.isrec) { v.cells.clear(); v.nrec_alloc = 0; ensure_records(v, f.numrecs); for (auto &c : v.cells) { c = Cell(); c.st = v.no_fill ? CS_UNWRITTEN : CS_FILL; } }
-        else { v.cells.assign((size_t)v.recelems, Cell()); for (auto &c : v.cells) c.st = v.no_fill ? CS_UNWRITTEN : CS_FILL; }
+        // the fill is written by all ranks, each at its own pace: like any write it is ordered with later accesses of other ranks only by
+        // the documented synchronisation ("If users want a stronger data consistency, ncmpi_sync() should be called", ncmpio_file_misc.c)
+        if (v.isrec) { v.cells.clear(); v.nrec_alloc = 0; ensure_records(v, f.numrecs); for (auto &c : v.cells) { c = Cell(); c.st = v.no_fill ? CS_UNWRITTEN : CS_FILL; c.wmask = v.no_fill ? 0 : 0xff; } }
+        else { v.cells.assign((size_t)v.recelems, Cell()); for (auto &c : v.cells) { c.st = v.no_fill ? CS_UNWRITTEN : CS_FILL; c.wmask = v.no_fill ? 0 : 0xff; } }
         v.fresh = false;
     }
     f.mode = FM_COLL; f.fresh = false; f.in_redef = false; f.saved.reset();
@@ -191,9 +193,10 @@ static void apply_put(MFile &f, MVar &v, int rank, const Access &a, int opidx, b
         if (e < 0 || e >= (long long)v.cells.size()) continue;
         Cell &c = v.cells[(size_t)e];
         uint8_t me = (uint8_t)(1u << rank);
-        if ((c.wmask & ~me) && !(c.st == CS_VALUE && c.v == a.values[k])) { c.st = CS_UNKNOWN; c.wmask |= me; continue; }   // unordered writes by different ranks
+        uint8_t mark = f.aggr ? 0xff : me;   // with aggregation even the writer needs the documented synchronisation to see its data
+        if ((c.wmask & ~me) && !(c.st == CS_VALUE && c.v == a.values[k])) { c.st = CS_UNKNOWN; c.wmask |= mark; continue; }   // unordered writes by different ranks
         if (!(c.st == CS_UNKNOWN && (c.wmask & ~me))) { c.st = CS_VALUE; c.v = a.values[k]; }
-        c.wmask |= me;
+        c.wmask |= mark;
     }
 }
 static void expect_get(MFile &f, MVar &v, int rank, Access &a) {
@@ -286,6 +289,7 @@ static bool model_step_inner(Model &m, Op &op) {
         MFile n; n.open = true; n.path = op.name; n.format = (int)op.a[0]; if (n.format != 1 && n.format != 2 && n.format != 5) n.format = 1;
         n.mode = FM_DEFINE; n.fresh = true; n.ranks.assign(m.nprocs, MRank());
         auto h = op.hints.find("nc_burst_buf"); n.bb = (h != op.hints.end() && h->second == "enable");
+        n.aggr = m.aggr_env || op.hints.count("nc_num_aggrs_per_node");
         m.disk.erase(op.name);
         m.absent.erase(std::remove(m.absent.begin(), m.absent.end(), op.name), m.absent.end());
         f = n; return true;
@@ -294,10 +298,11 @@ static bool model_step_inner(Model &m, Op &op) {
         if (f.open) return skip();
         for (auto &o : m.files) if (o.open && o.path == op.name) return skip();
         auto it = m.disk.find(op.name); if (it == m.disk.end()) return skip();
-        f = it->second; f.open = true; f.mode = FM_COLL; f.readonly = (op.a[0] == 0); f.fresh = false; f.in_redef = false; f.saved.reset();
+        f = it->second; f.open = true; f.mode = FM_COLL; f.readonly = (op.a[0] == 0); f.fresh = false; f.in_redef = false; f.saved.reset(); f.fill = false; /* the dataset fill mode is not stored in the file */
         f.ranks.assign(m.nprocs, MRank()); sync_numrecs(f); mark_synced(f);
         for (auto &v : f.vars) { v.fresh = false; v.fill_known = false; for (auto &c : v.cells) c.wmask = 0; }
         auto h = op.hints.find("nc_burst_buf"); f.bb = (h != op.hints.end() && h->second == "enable");
+        f.aggr = m.aggr_env || op.hints.count("nc_num_aggrs_per_node");
         return true;
     }
     case OP_CLOSE: case OP_ABORT: {
@@ -351,7 +356,7 @@ static bool model_step_inner(Model &m, Op &op) {
     case OP_DEF_VAR_FILL: {
         if (!f.open || f.mode != FM_DEFINE) return skip();
         int vi = resolve_var(f, op.var); if (vi < 0) return skip();
-        MVar &v = f.vars[vi];
+        MVar &v = f.vars[vi]; op.var = vi;
         if (!v.fresh) return skip();   // changing the fill mode of an existing variable has no retroactive meaning: stay inside the documented fragment
         v.no_fill = op.a[0] != 0;
         if (!v.no_fill && op.a[1]) {
@@ -365,7 +370,7 @@ static bool model_step_inner(Model &m, Op &op) {
     case OP_FILL_VAR_REC: {
         if (!f.open || f.mode != FM_COLL || f.readonly) return skip();
         int vi = resolve_var(f, op.var); if (vi < 0) return skip();
-        MVar &v = f.vars[vi]; if (!v.isrec || v.no_fill || !v.fill_known || op.a[0] < 0) return skip();
+        MVar &v = f.vars[vi]; op.var = vi; if (!v.isrec || v.no_fill || !v.fill_known || op.a[0] < 0) return skip();
         long long rec = op.a[0]; ensure_records(v, rec + 1);
         for (long long k = 0; k < v.recelems; k++) { Cell &c = v.cells[(size_t)(rec * v.recelems + k)]; bool racy = c.wmask != 0; c = Cell(); c.st = racy ? CS_UNKNOWN : CS_FILL; c.wmask = (uint8_t)((1u << m.nprocs) - 1); }
         if (rec + 1 > f.numrecs) f.numrecs = rec + 1;
@@ -426,7 +431,7 @@ static bool model_step_inner(Model &m, Op &op) {
         if (!f.open) return skip();
         for (auto &r : f.ranks) if (r.abuf) return skip();
         if (op.a[0] <= 0) return skip();
-        for (auto &r : f.ranks) { r.abuf = true; r.abuf_size = op.a[0]; r.abuf_used = 0; }
+        for (auto &r : f.ranks) { r.abuf = true; r.abuf_size = op.a[0]; r.abuf_used = 0; r.abuf_table.clear(); }
         return true;
     }
     case OP_DETACH: {
@@ -523,7 +528,8 @@ static bool model_step_inner(Model &m, Op &op) {
                     else { a.memtype = native_memtype(v.type); }   // values are only known at completion time: read without conversion
                     MReq q; q.live = true; q.kind = kind; q.var = vi; q.acc = a; q.opidx = opidx; q.nbytes = nbytes; q.abuf_bytes = kind == K_BPUT ? nbytes : 0;
                     if (kind == K_BPUT) rk.abuf_used += nbytes;
-                    a.reqslot = (int)rk.reqs.size(); q.acc.reqslot = a.reqslot; rk.reqs.push_back(q);
+                    a.reqslot = (int)rk.reqs.size();
+                    if (kind == K_BPUT) rk.abuf_table.push_back({nbytes, a.reqslot}); q.acc.reqslot = a.reqslot; rk.reqs.push_back(q);
                 }
             }
             a.exp_rc = rc; op.exp_rc_rank[r] = rc;
@@ -584,7 +590,10 @@ static bool model_step_inner(Model &m, Op &op) {
                 }
             }
         }
-        for (int r = 0; r < m.nprocs; r++) for (int s : done[r]) { MReq &q = f.ranks[r].reqs[s]; if (q.kind == K_BPUT) f.ranks[r].abuf_used -= q.abuf_bytes; q.live = false; }
+        for (int r = 0; r < m.nprocs; r++) {
+            for (int s : done[r]) { MReq &q = f.ranks[r].reqs[s]; if (q.kind == K_BPUT) { f.ranks[r].abuf_used -= q.abuf_bytes; for (auto &e : f.ranks[r].abuf_table) if (e.second == s) e.second = -1; } q.live = false; }
+            auto &t = f.ranks[r].abuf_table; while (!t.empty() && t.back().second < 0) t.pop_back();
+        }
         req_counts(f, op);
         return true;
     }
@@ -599,6 +608,7 @@ void annotate(Model &m, Program &p) {
     auto it = p.cfg.sim.env.find("PNETCDF_RELAX_COORD_BOUND");
     m.strict_coord = (it != p.cfg.sim.env.end() && it->second == "0");
     m.strict_iget_overlap = (p.cfg.flags & 1) != 0;
+    { auto h = p.cfg.sim.env.find("PNETCDF_HINTS"); m.aggr_env = (h != p.cfg.sim.env.end() && h->second.find("nc_num_aggrs_per_node") != std::string::npos); }
     m.cur_ops = &p.ops;
     for (auto &op : p.ops) model_step(m, op);
     m.cur_ops = nullptr;
